@@ -32,10 +32,12 @@ ASSUMPTIONS = [
 def targets(ctx):
     c = corpus()
     schema = c.schema
-    adapter = BPAdapter(schema)
+    adapters = {}
+    from .c08 import ENTRIES, decode_via
 
     @collecting
-    def clauses(out, name, tree, route, ops, xseed, stats=None):
+    def clauses(out, name, tree, route, ops, xseed, stats=None, tz=0, entry="parse"):
+        adapter = adapters.get(tz) or adapters.setdefault(tz, BPAdapter(schema, tz_offset_min=tz))
         cls = c.bp(name)
         mi = schema.msg(f"ks.{name}")
         want = norm(schema, mi, tree)
@@ -52,7 +54,7 @@ def targets(ctx):
         except Exception as e:  # noqa: BLE001 - reference rejects betterproto's bytes
             out.append(("bp_to_ref_rejected", f"reference rejects bytes(bp): {type(e).__name__}: {e}; bytes={b.hex()[:200]}"))
         # ref -> bp
-        m2 = guard("parse_ref", cls().parse, ref_bytes)
+        m2 = guard("parse_ref", decode_via, cls(), ref_bytes, entry)
         got = norm(schema, mi, guard("snapshot", snap_bp, schema, mi, m2))
         if got != want:
             out.append(("ref_to_bp", f"betterproto decodes reference bytes as {got!r}, want {want!r}; bytes={ref_bytes.hex()[:200]}"))
@@ -71,7 +73,7 @@ def targets(ctx):
                     st_["discarded_by_reference"] = st_.get("discarded_by_reference", 0) + 1
                 else:
                     st_["accepted"] = 1
-                    m3 = guard("parse_reencoded", cls().parse, e)
+                    m3 = guard("parse_reencoded", decode_via, cls(), e, entry)
                     got = norm(schema, mi, guard("snapshot_re", snap_bp, schema, mi, m3))
                     if got != want:
                         out.append(("reencoded_to_bp", f"ops={sorted(k for k in st_ if k not in ('accepted',))} got={got!r} want={want!r} enc={e.hex()[:240]}"))
@@ -102,37 +104,38 @@ def targets(ctx):
                     if stats is not None:
                         stats["accepted"] = 1
                         stats["override_last_default" if any(not v for k, v in tree2.items() if tree.get(k) != v or k not in tree) else "override_last_other"] = 1
-                    m4 = guard("parse_override", cls().parse, data)
+                    m4 = guard("parse_override", decode_via, cls(), data, entry)
                     got = norm(schema, mi, guard("snapshot_ov", snap_bp, schema, mi, m4))
                     if got != want2:
                         out.append(("later_occurrence_does_not_win", f"got={got!r} want={want2!r} enc={data.hex()[:240]}"))
                 elif stats is not None:
                     stats["discarded_by_reference"] = stats.get("discarded_by_reference", 0) + 1
 
-    def fails_clause(route, ops, xseed, clause):
+    def fails_clause(route, ops, xseed, clause, tz=0, entry="parse"):
         def f(mi, tree):
             name = mi.full_name.split(".")[-1]
-            return any(cl == clause for cl, _ in clauses(name, tree, route, ops, xseed))
+            return any(cl == clause for cl, _ in clauses(name, tree, route, ops, xseed, None, tz, entry))
 
         return f
 
     def ev(case):
         name, tree, route = case["msg"], case["tree"], case.get("route", "kwargs")
         ops, xseed = case.get("ops", []), case.get("xseed", 0)
+        tz, entry = case.get("tz", 0), case.get("entry", "parse")
         mi = schema.msg(f"ks.{name}")
         stats = {}
-        found = clauses(name, tree, route, ops, xseed, stats)
+        found = clauses(name, tree, route, ops, xseed, stats, tz, entry)
         fails = []
         for clause, detail in found:
-            wheres = cm.culprits(schema, mi, tree, fails_clause(route, ops, xseed, clause))
+            wheres = cm.culprits(schema, mi, tree, fails_clause(route, ops, xseed, clause, tz, entry))
             opsig = ""
             if clause in ("reencoded_to_bp",) or clause.startswith("raises_parse_reencoded") or clause.startswith("raises_snapshot_re"):
                 # which single transformation is enough?
-                single = [o for o in ops if fails_clause(route, [o], xseed, clause)(mi, tree)]
+                single = [o for o in ops if fails_clause(route, [o], xseed, clause, tz, entry)(mi, tree)]
                 opsig = "|ops:" + ("+".join(sorted(single)) if single else "combo:" + "+".join(sorted(ops)))
             for where in wheres:
-                fails.append(Failure(clause, f"{clause}|{where}{opsig}", f"msg={name} route={route} ops={ops} xseed={xseed} tree={tree!r} :: {detail}"))
-        labs = cm.labels_for(schema, mi, tree) + [f"xf:{k}" for k in stats]
+                fails.append(Failure(clause, f"{clause}|{where}{opsig}" + (f"|{entry}" if entry != "parse" and clause != "bp_to_ref" else ""), f"msg={name} route={route} ops={ops} xseed={xseed} tz={tz} entry={entry} tree={tree!r} :: {detail}"))
+        labs = cm.labels_for(schema, mi, tree) + [f"xf:{k}" for k in stats] + [f"tz:{tz}", f"entry:{entry}"]
         if stats.get("discarded_by_reference"):
             ctx.extra["reencodings_discarded_by_reference"] = ctx.extra.get("reencodings_discarded_by_reference", 0) + 1
         return Eval(fails, nontrivial=bool(stats.get("accepted")), labels=labs)
@@ -145,6 +148,8 @@ def targets(ctx):
         case["route"] = draw(st.sampled_from(["kwargs", "setattr", "lazy"]))
         case["ops"] = draw(st.lists(st.sampled_from(wire.ALL_OPS + ("override",)), max_size=4, unique=True))
         case["xseed"] = draw(st.integers(0, 2**16))
+        case["tz"] = draw(st.sampled_from([0, 0, 330, -480, 765]))
+        case["entry"] = draw(st.sampled_from(ENTRIES))
         return case
 
     # dense re-encoding cases: messages with many packable / oneof / scalar fields
@@ -157,6 +162,7 @@ def targets(ctx):
         case["route"] = "kwargs"
         case["ops"] = draw(st.lists(st.sampled_from(wire.ALL_OPS + ("override",)), min_size=1, max_size=3, unique=True))
         case["xseed"] = draw(st.integers(0, 2**16))
+        case["entry"] = draw(st.sampled_from(ENTRIES))
         return case
 
     # ---- programs: grammar-generated schemas, PRNG-drawn values, differential in both directions + re-encodings
@@ -212,7 +218,8 @@ def targets(ctx):
                                 found.append(("bp_to_ref", f"reference reads {got!r:.200} want {want!r:.200}"))
                         except Exception as e:  # noqa: BLE001
                             found.append(("bp_to_ref_rejected", f"{e}"))
-                        m2 = guard("parse_ref", cls().parse, ref_bytes)
+                        entry = ENTRIES[rng.randrange(len(ENTRIES))]
+                        m2 = guard("parse_ref", decode_via, cls(), ref_bytes, entry)
                         got = norm(gschema, mi, guard("snapshot", snap_bp, gschema, mi, m2))
                         if got != want:
                             found.append(("ref_to_bp", f"betterproto reads {got!r:.200} want {want!r:.200}"))
@@ -226,7 +233,7 @@ def targets(ctx):
                                 ok = False
                             if ok:
                                 nt += 1
-                                m3 = guard("parse_reencoded", cls().parse, e)
+                                m3 = guard("parse_reencoded", decode_via, cls(), e, entry)
                                 got = norm(gschema, mi, guard("snapshot_re", snap_bp, gschema, mi, m3))
                                 if got != want:
                                     found.append(("reencoded_to_bp", f"ops={ops} got={got!r:.200} want={want!r:.200}"))
